@@ -88,7 +88,7 @@ const CONFIGS: &[Config] = &[
     Config { name: "default", prelude: "", default_ifs: true },
     Config { name: "IFS=''", prelude: "IFS=\n", default_ifs: false },
     Config { name: "IFS=:", prelude: "IFS=:\n", default_ifs: false },
-    Config { name: "IFS=a", prelude: "IFS=a\n", default_ifs: false },
+    Config { name: "IFS=-", prelude: "IFS=-\n", default_ifs: false },
     Config { name: "noglob", prelude: "set -f\n", default_ifs: true },
     Config { name: "nullglob", prelude: "shopt -s nullglob\n", default_ifs: true },
     Config { name: "failglob", prelude: "shopt -s failglob\n", default_ifs: true },
@@ -217,7 +217,7 @@ pub fn run(tier: Tier, _replay: Option<Value>) -> ! {
         }
     }
     rep.rule = format!(
-        "all values over the {}-symbol alphabet {:?} with <= {} symbols, injected through the API, in {} contexts under {} configurations (IFS default/empty/:/a; noglob, nullglob, failglob, dotglob, extglob, nocaseglob+globstar), in a directory holding a file for every 1- and 2-symbol value; plus the redirection-target context in an empty directory; non-trivial = value contains a non-alphanumeric character",
+        "all values over the {}-symbol alphabet {:?} with <= {} symbols, injected through the API, in {} contexts under {} configurations (IFS default/empty/:/-; noglob, nullglob, failglob, dotglob, extglob, nocaseglob+globstar), in a directory holding a file for every 1- and 2-symbol value; plus the redirection-target context in an empty directory; non-trivial = value contains a non-alphanumeric character",
         SIGMA.len(),
         SIGMA,
         tier.pick(2, 3),
